@@ -176,6 +176,186 @@ void h_reg_entry_is_in_memory(void)
   VERIF_CANARY();
 }
 
+/* ---- layer 2b: walkers of block access / iteration (tier A-len) ------------
+ * lists of symbolic length (<= RB_AMAX areas, <= RB_EMAX registers) in
+ * exact-size blocks, arbitrary content: everything the contracts need beyond
+ * that is in their requires clauses */
+#define RB_AK_WRITE 1u   /* area has a write callback (reg_mem_write) */
+#define RB_AK_READ 2u    /* area has a read callback (reg_mem_read) */
+#define RB_AK_MEM 4u     /* area is memory-backed */
+uint32_t g_rb_x;
+uint32_t g_rb_an, g_rb_ab[17], g_rb_ae[17];
+bool g_rb_aw[17];
+RegisterEntry g_rb_e0;
+uint16_t g_rb_f0;
+uint32_t g_rb_en, g_rb_ea[65], g_rb_ee[65];
+
+/* the area map of a table (ghost data the contracts tie to the table by
+ * RB_LINKED_A; computed, so that the native replay has it too) */
+static void rb_emap_of(const RegisterTable *t)
+{
+  const RegisterEntry *te = t->entry;
+  g_rb_en = t->entries;
+  for (uint32_t j = 0; j < RB_EMAX; j++) {
+    g_rb_ea[j] = 0; g_rb_ee[j] = 0;
+    if (j < g_rb_en) {
+      g_rb_ea[j] = te[j].address;
+      g_rb_ee[j] = te[j].address + RB_WORDS(te[j].type);
+    }
+  }
+}
+
+static void rb_map_of(const RegisterTable *t)
+{
+  const RegisterArea *ta = t->area;
+  g_rb_an = t->areas;
+  for (uint32_t i = 0; i < RB_AMAX; i++) {
+    g_rb_ab[i] = 0; g_rb_ae[i] = 0; g_rb_aw[i] = false;
+    if (i < g_rb_an) {
+      g_rb_ab[i] = ta[i].base;
+      g_rb_ae[i] = ta[i].base + ta[i].size;
+      g_rb_aw[i] = RB_AREA_WRITABLE(&ta[i]);
+    }
+  }
+}
+
+/* Lists in blocks of the constant size of the cap, every field of every
+ * element assigned from a named input (unconstrained heap blocks of symbolic
+ * size cost the solver an array constraint per pair of accesses). */
+static RegisterTable *rb_len_table(void)
+{
+  IN(uint16_t, in_areas) IN(uint32_t, in_entries)
+  ASSUME(in_areas <= RB_AMAX && in_entries <= RB_EMAX);
+  RegisterArea *in_alist = malloc(sizeof(RegisterArea) * RB_AMAX);
+  RegisterEntry *in_elist = malloc(sizeof(RegisterEntry) * RB_EMAX);
+  RegisterTable *t = malloc(sizeof(RegisterTable));
+  ASSUME(in_alist != NULL && in_elist != NULL && t != NULL);
+  for (uint32_t i = 0; i < RB_AMAX; i++) {
+    RegisterArea *a = &in_alist[i];
+    IN(uint32_t, in_abase) IN(uint32_t, in_asize) IN(uint16_t, in_aflags) IN(uint8_t, in_akind)
+    IN(uint32_t, in_afirst) IN(uint32_t, in_alast) IN(uint32_t, in_acount)
+    a->base = in_abase; a->size = in_asize; a->flags = in_aflags;
+    a->read = (in_akind & RB_AK_READ) ? reg_mem_read : NULL;
+    a->write = (in_akind & RB_AK_WRITE) ? reg_mem_write : NULL;
+    a->entry.first = in_afirst; a->entry.last = in_alast; a->entry.count = in_acount;
+    a->mem = NULL;
+  }
+#ifndef RB_NO_ENTRIES
+  for (uint32_t j = 0; j < RB_EMAX; j++) {
+    RegisterEntry *e = &in_elist[j];
+    IN(uint8_t, in_etype) IN(uint32_t, in_eaddr) IN(uint16_t, in_eflags) IN(uint32_t, in_eoffset)
+    ASSUME(in_etype <= REG_TYPE_INVALID);
+    e->type = (RegisterType)in_etype; e->address = in_eaddr; e->flags = in_eflags; e->offset = in_eoffset;
+    e->default_value.u64 = 0; e->check.type = REGV_TYPE_TRIVIAL; e->check.arg.range.min.u64 = 0; e->check.arg.range.max.u64 = 0;
+    e->name = NULL; e->user = NULL; e->area = NULL;
+  }
+#endif
+  IN(uint16_t, in_tflags)
+  t->flags = in_tflags; t->areas = in_areas; t->entries = in_entries;
+  t->area = in_alist; t->entry = in_elist;
+  IN(uint32_t, in_gx)
+  g_rb_x = in_gx;
+  rb_map_of(t);
+#ifndef RB_NO_ENTRIES
+  rb_emap_of(t);
+#endif
+  return t;
+}
+
+void h_register_block_touches_hole(void)
+{
+  GHOST_HAVOC();
+  IN(uint32_t, in_addr) IN(uint32_t, in_n)
+  register_block_touches_hole(rb_len_table(), in_addr, in_n);
+  VERIF_CANARY();
+}
+
+/* the register the ghost index g_k designates, before the call */
+static void rb_snapshot_entry(const RegisterTable *t)
+{
+  if (g_k < t->entries) {
+    g_rb_e0 = t->entry[g_k];
+    g_rb_f0 = g_rb_e0.flags;
+  }
+}
+
+static void rb_stub_reset(RegisterTable *t, void *arg)
+{
+  g_it_table = t; g_it_arg = arg; g_it_calls = 0; g_it_first = 0; g_it_last_rc = 0; g_it_bad = false; g_it_stopped = false;
+  for (uint32_t k = 0; k < RB_STUB_CALLS; k++) {
+    IN(int, st_rc)
+    st_it_rc[k] = st_rc;
+  }
+}
+
+/* ra_find_area_by_addr on a short list: the clause that speaks about every
+ * index below the result at once (RB_FIND_NONE_BELOW) */
+void h_ra_find_area_by_addr_short(void)
+{
+  GHOST_HAVOC();
+  IN(uint32_t, in_addr)
+  ra_find_area_by_addr(rb_len_table(), in_addr);
+  VERIF_CANARY();
+}
+
+void h_ra_writeable(void)
+{
+  GHOST_HAVOC();
+  IN(uint32_t, in_addr) IN(uint32_t, in_n)
+  ra_writeable(rb_len_table(), in_addr, in_n);
+  VERIF_CANARY();
+}
+
+void h_reg_taint_in_range(void)
+{
+  GHOST_HAVOC();
+  IN(uint32_t, in_addr) IN(uint32_t, in_n)
+  RegisterTable *t = rb_len_table();
+  rb_snapshot_entry(t);
+  reg_taint_in_range(t, in_addr, in_n);
+  VERIF_CANARY();
+}
+
+void h_find_area(void)
+{
+  GHOST_HAVOC();
+  IN(uint16_t, in_first) IN(uint16_t, in_last) IN(uint32_t, in_addr)
+  find_area(rb_any_table(), in_first, in_last, in_addr);
+  VERIF_CANARY();
+}
+
+void h_find_reg(void)
+{
+  GHOST_HAVOC();
+  IN(uint32_t, in_first) IN(uint32_t, in_last) IN(uint32_t, in_addr)
+  find_reg(rb_len_table(), in_first, in_last, in_addr);
+  VERIF_CANARY();
+}
+
+static registerCallback rb_the_callback = rb_stub_iter;
+
+void h_reg_iterate(void)
+{
+  GHOST_HAVOC();
+  IN(uint32_t, in_start) IN(uint32_t, in_end)
+  IN_MEM(in_arg, 1)
+  RegisterTable *t = rb_len_table();
+  rb_stub_reset(t, in_arg);
+  reg_iterate(t, in_start, in_end, rb_the_callback, in_arg);
+  VERIF_CANARY();
+}
+
+void h_register_foreach_in_contract(void)
+{
+  GHOST_HAVOC();
+  IN(uint32_t, in_addr) IN(uint32_t, in_off)
+  IN_MEM(in_arg, 1)
+  RegisterTable *t = rb_len_table();
+  rb_stub_reset(t, in_arg);
+  register_foreach_in(t, in_addr, in_off, rb_the_callback, in_arg);
+  VERIF_CANARY();
+}
+
 /* ---- bounded (tier B) table family ------------------------------------
  * A description has in_na <= RB_NA areas and in_ne <= RB_NE registers, each
  * list closed by its terminator, all in exact-size heap blocks.  Everything
@@ -194,9 +374,6 @@ struct rb_tab {
   uint32_t na, ne;
 };
 
-#define RB_AK_WRITE 1u   /* area has a write callback (reg_mem_write) */
-#define RB_AK_READ 2u    /* area has a read callback (reg_mem_read) */
-#define RB_AK_MEM 4u     /* area is memory-backed */
 
 /* Blocks have the constant size of the family's dimension (symbolic-size
  * heap objects and symbolic placements make the queries explode).  A list of
@@ -394,7 +571,7 @@ void h_register_block_read(void)
   GHOST_HAVOC();
   struct rb_tab T = rb_initialised_table();
   IN(uint32_t, in_addr) IN(uint32_t, in_n)
-  ASSUME(in_n <= RB_NB && RB_M64(in_addr) + in_n <= 0xffffffffull);
+  ASSUME(in_n <= RB_NB);     /* the request may end beyond the address space: it is then never all mapped */
   rb_buffer();
   struct rb_access_expect x = rb_spec_block_read(&rb_pre, in_addr, in_n);
   RegisterAccess r = register_block_read(T.t, in_addr, in_n, rb_buf);
@@ -426,7 +603,7 @@ void h_register_foreach_in(void)
   IN(uint32_t, in_addr) IN(uint32_t, in_off)
   ASSUME(RB_M64(in_addr) + in_off <= 0xffffffffull);
   IN_MEM(in_arg, 1)
-  g_it_table = T.t; g_it_arg = in_arg; g_it_calls = 0; g_it_bad = false; g_it_stopped = false;
+  g_it_table = T.t; g_it_arg = in_arg; g_it_calls = 0; g_it_first = 0; g_it_last_rc = 0; g_it_bad = false; g_it_stopped = false;
   for (uint32_t k = 0; k < RB_STUB_CALLS; k++) {
     IN(int, st_rc)
     st_it_rc[k] = st_rc;
